@@ -105,7 +105,8 @@ def cache_before_wakeup(ctx):
     ctx.analysed(rx)
     cfg = CFG(rx.node, m, rx.module)
     upd = [i for c in calls_in(rx.node) if call_attr(c) == 'updateValue' for i in cfg.node_of(c)]
-    sets = [c for c in calls_in(rx.node) if call_attr(c) == 'set' and 'entry' in src(c.func)]
+    sets = [c for c in calls_in(rx.node) if call_attr(c) == 'set' and isinstance(c.func, ast.Attribute) and
+            ('entry' in src(c.func) or (isinstance(c.func.value, ast.Subscript) and src(c.func.value.slice) == '1'))]
     reads = [i for c in calls_in(rx.node) if call_attr(c) == 'readline' for i in cfg.node_of(c)]
     tests = [t.id for t in cfg.nodes if t.kind == 'test' and 'UPDATE_MESSAGES' in src(t.ast)]
     if not (upd and sets and reads and tests):
